@@ -96,6 +96,11 @@ class Synth:
             crc = CrcFlag.NO_CRC if c.crc else CrcFlag.WITH_CRC
             notes.append("crc")
         direction = Direction.TOWARDS_RECEIVER if kind in TO_RECEIVER else Direction.TOWARDS_SENDER
+        # the large-file PDU format is legal for files of any size (8-byte offsets and sizes)
+        file_flag = LargeFileFlag.LARGE if getattr(self, "large", False) else LargeFileFlag.NORMAL
+        if dev("large file flag"):
+            file_flag = LargeFileFlag.LARGE if file_flag == LargeFileFlag.NORMAL else LargeFileFlag.NORMAL
+            notes.append("largeflag")
         flip_dir = False
         if dev("direction"):
             flip_dir = True
@@ -105,7 +110,7 @@ class Synth:
             dest_entity_id=UnsignedByteField(dst_val, idw),
             transaction_seq_num=UnsignedByteField(seqv, seqw),
             trans_mode=mode,
-            file_flag=LargeFileFlag.NORMAL,
+            file_flag=file_flag,
             crc_flag=crc,
             direction=direction,
         )
